@@ -131,3 +131,36 @@ def summarize(fb, item, ok_only=True):
 
 def same_sets(a, b):
     return sorted(map(repr, (canon(x) for x in a))) == sorted(map(repr, (canon(x) for x in b)))
+
+
+def field_writers(fb, field, files):
+    """{function name: item} for every function (closures attributed to their parent) of the given files whose MIR assigns to, or mutably
+    borrows, a place that projects `field` - a syntactic who-may-write inventory over the type-checked MIR"""
+    out = {}
+    for path, it in sorted(fb.items.items()):
+        if it.kind not in ("Fn", "AssocFn", "Closure") or it.file not in files or it.get("test"):
+            continue
+        hit = []
+
+        def walk(x):
+            if isinstance(x, dict):
+                if "l" in x and "proj" in x and any(pr[0] == "field" and len(pr) > 2 and pr[2] == field for pr in x["proj"]):
+                    hit.append(x)
+                for v in x.values():
+                    walk(v)
+            elif isinstance(x, list):
+                for v in x:
+                    walk(v)
+        for b in it.blocks:
+            for st in b["stmts"]:
+                if st.get("k") == "assign":
+                    walk(st["p"])
+                    rv = st.get("rv", {})
+                    if rv.get("k") == "ref" and rv.get("m") == "mut":
+                        walk(rv.get("p"))
+            t = b["term"]
+            if t["k"] == "call" and t.get("dest"):
+                walk(t["dest"])
+        if hit:
+            out[path] = it
+    return out
